@@ -441,7 +441,7 @@ def run_check(run, tier, seed, shard):
     quick = tier == 'quick'
     deadline = time.time() + (700 if quick else 3000)
     run.assume('leniencies not demanded by the property: bit-select [0] of a scalar, widths of unsized literals; a module emitted but never instantiated is not an error')
-    run.assume('black boxes: none declared by these workloads (createdStructures list is not used)')
+    run.assume('black boxes: only the modules a workload itself names in createdStructures')
 
     def dut_text(label, f, case):
         hw = py4hw.HWSystem()
@@ -650,6 +650,32 @@ def run_check(run, tier, seed, shard):
             continue
         run.count('history_texts')
         judge_text(run, text, plan['name'] + '/history', dict(workload='history', plan=plan, first=first, change=change, single=single), single_module=single)
+    # (j) projects: two top blocks written one after the other with one shared createdStructures list (the way a multi-file project is
+    # written); the texts together are the design, so every module used by either is defined exactly once across both
+    n = 40 if quick else 4000
+    for i in shard_slice(range(n), shard):
+        if time.time() > deadline or run.too_many:
+            break
+        rnd = rng(seed, 'c03-project', i)
+        try:
+            parts, shared, plans = [], [], []
+            keep = []
+            for k in range(2):
+                g = dutgen.Gen(rnd, max_width=8)
+                plan = g.plan(n_nodes=rnd.randint(3, 9), depth=rnd.randint(0, 2))
+                des = dutgen.instantiate(plan)
+                keep.append(des)
+                plans.append(plan)
+                with muted():
+                    gen = py4hw.VerilogGenerator(des.dut)
+                    parts.append(gen.getVerilogForHierarchy(forceName='Top%d' % k, createdStructures=shared))
+        except Exception:
+            run.count('refused')
+            continue
+        run.count('project_texts')
+        d = judge_text(run, '\n'.join(parts), 'project-%d' % i, dict(workload='project', plans=plans))
+        if sum(1 for m in d.mods if m.startswith('Top')) != 2:
+            run.count('project_top_missing')
     # texts handed over by the transpiler corpus (C02) when that module exists
     try:
         from . import c02
